@@ -107,7 +107,7 @@ def g_case(case, res, norm):
         iv = E.zlist(bytes.fromhex(case['iv2'] if foreign else case['iv']))
         sers = [[None if c is None else list(c) for c in res['ser'][r]] for r in idx]
         parts.append('c39_rows_eqb (fst (c39_run %s %s %s)) (Some %s)' % (iv, keys, E.g_rows(sers), E.g_rows([norm[r] for r in idx])))
-    dec = None if res['decode_err'] else [[None if c is None else list(c) for c in r] for r in res['decoded_ser']]
+    dec = None if (res['decode_err'] or res['decoded_ser'] is None) else [[None if c is None else list(c) for c in r] for r in res['decoded_ser']]
     parts.append('c39_rows_eqb (c39_decode %s %s) %s' % (keys, E.g_rows(norm), E.g_opt_rows(dec)))
     return ' && '.join('(%s)' % p for p in parts)
 
